@@ -46,6 +46,11 @@ pub trait Env {
     fn any_order(&self) -> bool {
         false
     }
+    /// when true the router is not polled before every socket has been registered (a burst of
+    /// concurrent opens: all of them sit in the registration channel at its first poll)
+    fn burst_registration(&self) -> bool {
+        false
+    }
 }
 
 pub struct Outcome {
@@ -163,7 +168,8 @@ impl<'a> Exec<'a> {
                 break;
             }
             acts.clear();
-            if self.flag.0.load(Ordering::SeqCst) {
+            let holding_back = env.burst_registration() && !closed && next_socket < env.n_sockets();
+            if self.flag.0.load(Ordering::SeqCst) && !holding_back {
                 acts.push(Act::Poll);
             }
             if !closed {
